@@ -119,7 +119,7 @@ GAPS = {
     'C13': ['Subjac.set_col for CSR / CSC / diagonal / dense storage and _CheckingJacobian.set_col: bounded exhaustive tier only (COOSubjac._set_coo_col is proved; its counter-model search is too slow for z3, so a broken body shows up through the boosted native sampling / bounded tier rather than a refutation)', 'directional derivative checks (directional_fd_fwd / directional_fwd_rev branches)', '_MagnitudeData bookkeeping values', 'deriv_display text rendering', 'which arrays check_partials/check_totals pass in as J_fwd/J_rev/J_fd'],
     'C27': ['types=list (element-wise values check)', 'set_function preprocessing', 'declare() default validation and argument checks', 'update()/undeclare()/set()', 'deprecation warning text'],
     'C22': ['Driver._compute_con_viol (linear-first concatenation, exception fallback)', 'OptimizerVector.update_from_model (assumed to deliver model values)', 'multi-constraint vectors: one constraint slice [a,b) of a larger vector is verified, other slices are covered by the frame only'],
-    'C20': ['unit part of total_scaler/total_adder (System._setup_driver_units, add_design_var/add_response normalisation)', '_TotalJacInfo._apply_unit_scaling/_identify_unit_active_vars', 'Autoscaler._compute_scaled_bounds slice layout loop', 'OptimizerVector.update_from_model / create_from_model', 'Driver._get_voi_val / _set_design_var unit branches'],
+    'C20': ['unit part of total_scaler/total_adder (System._setup_driver_units, add_design_var/add_response normalisation)', '_TotalJacInfo._identify_unit_active_vars (which names get a unit factor)', 'Autoscaler._compute_scaled_bounds slice layout loop', 'OptimizerVector.update_from_model / create_from_model', 'Driver._get_voi_val / _set_design_var unit branches'],
     'C09': ['BroydenSolver._iter_initialize (array dtype conversions outside the subset)', 'ScipyKrylov / PETScKrylov delegate to external iterations', 'ArmijoGoldsteinLS / BoundsEnforceLS inner iteration counts', 'exceptions raised by subsystems inside _single_iteration'],
     'C33': ['DefaultVector._initialize_data (views tile [0,end) in order)', 'Vector.set_var / __getitem__ name lookup and indexer path', 'non-contiguous / distributed vectors'],
     'C10': ['composition with NewtonSolver._single_iteration (that the line search is called with u += alpha*du just applied) is covered only for BoundsEnforceLS._solve / ArmijoGoldsteinLS._iter_initialize call protocol',
